@@ -56,6 +56,9 @@ struct Ctl {
 
 static Ctl G;   // never destroyed before exit: detached workers may still be leaving it
 static thread_local int t_id = -1;
+static bool g_fine = false;                 // engine poolf: every unlock of the pool mutex is a scheduling point too
+static thread_local int t_atomic_unlock = 0;   // inside condition_variable::wait: unlock + sleep is one atomic action
+static void unlocked();
 
 static void check_lock_free();
 static void after_wake();
@@ -113,6 +116,7 @@ public:
     void unlock() {
         pctl::G.held--;
         m.unlock();
+        pctl::unlocked();
     }
     native_handle_type native_handle() { return m.native_handle(); }
 
@@ -129,18 +133,22 @@ public:
     pool_cv(const pool_cv &) = delete;
     pool_cv &operator=(const pool_cv &) = delete;
     void notify_one() noexcept {
+        pctl::after_wake();   // the condition variable of a destroyed pool must not be used
         long flagged = 0;
         for (auto &t : pctl::G.ths) flagged += t->cv_sleep && t->cv_flag;
         if (pctl::G.tokens + flagged < pctl::G.sleepers) pctl::G.tokens++;
     }
     void notify_all() noexcept {
+        pctl::after_wake();   // the condition variable of a destroyed pool must not be used
         pctl::G.tokens = 0;
         for (auto &t : pctl::G.ths)
             if (t->cv_sleep) t->cv_flag = true;
     }
     template <typename L>
     void wait(L &lk) {
+        pctl::t_atomic_unlock++;
         lk.unlock();
+        pctl::t_atomic_unlock--;
         pctl::Thr *me = pctl::G.ths[pctl::t_id].get();
         pctl::G.sleepers++;
         me->cv_sleep = true;
@@ -309,6 +317,12 @@ static void check_destroyed() {
 }
 void pctl::after_wake() { check_destroyed(); }
 
+// engine poolf (finer interleaving, no model prediction): the code that follows a critical section is a step of its own
+void pctl::unlocked() {
+    if (!pctl::g_fine || pctl::t_id < 0 || !pctl::G.active || pctl::t_atomic_unlock) return;
+    pctl::yield(pctl::AtPoint, 66, nullptr);
+}
+
 static void hook_point(const char *id) {
     if (pctl::t_id < 0 || !pctl::G.active) return;
     bool lock = !std::strcmp(id, "p_lock");
@@ -419,6 +433,30 @@ struct Guard {
     }
 };
 
+// like Guard, but its move constructor throws when the object is moved while the pool mutex is held, i.e. exactly at
+// the _queue.push() inside enqueue(): the push fails, the exception leaves run_detached(), the callable must still be
+// destroyed (in the caller)
+struct move_thrown {};
+struct TGuard {
+    Rec *r;
+    bool done = false;
+    explicit TGuard(Rec *x) : r(x) {}
+    TGuard(TGuard &&o) {
+        if (pool_locked()) throw move_thrown{};
+        r = o.r;
+        done = o.done;
+        o.r = nullptr;
+    }
+    TGuard(const TGuard &) = delete;
+    ~TGuard() {
+        if (r && !done) on_cancel(r);
+    }
+    void run() {
+        done = true;
+        on_run(r);
+    }
+};
+
 struct Grab {   // suspends and leaves the handle in the record
     Rec *r;
     bool await_ready() noexcept { return false; }
@@ -505,6 +543,12 @@ static void submit(Rec *r) {
             break;
         }
         case 5: r->fut.reset(new future<int>(g_pool->run(async_job(Guard(r), r)))); break;
+        case 6:
+            try {
+                g_pool->run_detached([g = TGuard(r)]() mutable { g.run(); });
+            } catch (const move_thrown &) {
+            }
+            break;
     }
     t_pending.erase(std::remove(t_pending.begin(), t_pending.end(), r), t_pending.end());
 }
@@ -551,7 +595,7 @@ static void run_case(const vh::Case &cs) {
     std::vector<long> sched;
     long nk = 0;
     std::vector<std::pair<Rec *, long>> susp_of;
-    auto kind_ok = [](long k) { return k >= 0 && k <= 5; };
+    auto kind_ok = [](long k) { return k >= 0 && k <= 6; };   // 6 (top level only): run_detached of a callable whose move throws
     auto new_rec = [&](long label, long kind) {
         recs.emplace_back(new Rec());
         recs.back()->label = label;
@@ -670,6 +714,13 @@ static void run_case(const vh::Case &cs) {
                 delete p;
                 g_pool = nullptr;
                 g_destroyed = 1;
+                if (pctl::g_fine) {
+                    // submissions that are neither run nor cancelled at the moment the destructor has returned
+                    long unresolved = 0;
+                    for (auto &r : recs)
+                        if (r->submitted && r->ran + r->canc == 0) unresolved++;
+                    vh::print_obs({400, unresolved});
+                }
             }
         }));
     }
@@ -724,7 +775,7 @@ static void run_case(const vh::Case &cs) {
         switch (r->kind) {
             case 0: case 1: case 4: ws = r->fin; break;
             case 2: case 5: ws = fut_state(r->fut); break;
-            case 3: ws = r->ran ? 1 : (r->canc ? 2 : 0); break;
+            case 3: case 6: ws = r->ran ? 1 : (r->canc ? 2 : 0); break;
         }
         vh::print_obs({200, r->label, r->kind, r->ran, r->canc, ws, r->ran_on});
     }
@@ -752,7 +803,8 @@ int main(int argc, char **argv) {
     for (auto &cs : vh::read_cases(argv[1])) {
         std::printf("CASE %s\n", cs.name.c_str());
         std::fflush(stdout);
-        if (cs.engine == "pool") run_case(cs);
+        pctl::g_fine = cs.engine == "poolf";
+        if (cs.engine == "pool" || cs.engine == "poolf") run_case(cs);
         std::printf("END\n");
         std::fflush(stdout);
     }
